@@ -3,7 +3,8 @@
 Histories of *runs* over one temporary directory with bytecode writing ON.  Each run optionally edits
 one source first (a different size, and either a later mtime or the SAME mtime), optionally cuts off the cached
 files of one module (interrupted write; refusing to load them is acceptable, wrong instrumentation is not),
-optionally runs like 'python -B' (caches read, nothing written), installs 0..2 hooks (subset of {pa, pb, pkg, pkg.sub}; checker
+optionally runs like 'python -B' (caches read, nothing written), optionally imports everything while checking is
+switched off (the modules are observed after switching it back on), installs 0..2 hooks (subset of {pa, pb, pkg, pkg.sub}; checker
 spy a / spy b / None), imports the modules in a drawn order (pa imports pb inside its body, pkg imports
 pkg.sub; 'pbad' has a syntax error and fails to import), uninstalls the hooks, imports 0..2 more modules plainly and records, per module: instrumented?, by which checker?, which source version do its
 functions run?  Model: instrumented iff hooked in THIS run, by THIS run's (most recent matching)
@@ -56,17 +57,18 @@ b = _mk("b")
 '''
 
 
-def source(mod, version):
+def source(mod, version, same_size=False):
     head = {"pa": "import pb\n", "pkg": "from . import sub\n"}.get(mod, "")
-    pad = "# " + "x" * (3 * version) + "\n"
+    # same_size: the byte length does not depend on the (single-digit) version, only the content changes
+    pad = "# " + "x" * (40 if same_size else 3 * version) + "\n"
     return f"{head}{pad}VERSION = {version}\ndef f(x: int):\n    return {version}\n"
 
 
-def write_source(d, mod, version, stamp):
+def write_source(d, mod, version, stamp, same_size=False):
     p = os.path.join(d, FILES[mod])
     os.makedirs(os.path.dirname(p), exist_ok=True)
     with open(p, "w") as f:
-        f.write(source(mod, version))
+        f.write(source(mod, version, same_size))
     os.utime(p, (stamp, stamp))
 
 
@@ -74,6 +76,9 @@ RUNNER = r'''
 import importlib, json, sys
 spec = json.loads(sys.argv[1])
 sys.dont_write_bytecode = bool(spec.get("dont_write"))
+import os
+if spec.get("disabled"):
+    os.environ["JAXTYPING_DISABLE"] = "1"
 sys.path.insert(0, spec["dir"])
 import jaxtyping
 from jaxtyping import install_import_hook
@@ -91,6 +96,7 @@ for m in mgrs:
     m.uninstall()
 for m in spec.get("after", []):
     importlib.import_module(m)
+jaxtyping.config.update("jaxtyping_disable", False)   # observe with checking on: the switch is read per call
 out = {}
 for name in ["pa", "pb", "pkg", "pkg.sub"]:
     mod = sys.modules.get(name)
@@ -119,7 +125,7 @@ def classify(o):
 def run_subprocess(d, run):
     env = dict(os.environ)
     env.pop("PYTHONDONTWRITEBYTECODE", None)
-    r = subprocess.run([sys.executable, "-W", "ignore", "-c", RUNNER, json.dumps({"dir": d, "hooks": run["hooks"], "order": run["order"], "after": run.get("after", []), "dont_write": run.get("dont_write", False)})],
+    r = subprocess.run([sys.executable, "-W", "ignore", "-c", RUNNER, json.dumps({"dir": d, "hooks": run["hooks"], "order": run["order"], "after": run.get("after", []), "dont_write": run.get("dont_write", False), "disabled": run.get("disabled", False)})],
                        capture_output=True, text=True, env=env, timeout=300)
     line = [l for l in r.stdout.splitlines() if l.startswith("VF18")]
     if not line:
@@ -144,6 +150,9 @@ def run_inprocess(d, run):
     try:
         import vf_spy18
 
+        # a run with checking switched off while the modules are imported (JAXTYPING_DISABLE=1 / config.update); the
+        # modules are observed after switching back on: instrumentation does not depend on the switch, only calls do
+        jaxtyping.config.update("jaxtyping_disable", bool(run.get("disabled")))
         mgrs = []
         for names, checker in run["hooks"]:
             mgrs.append(install_import_hook(names, None if checker == "none" else "vf_spy18." + checker))
@@ -164,6 +173,7 @@ def run_inprocess(d, run):
                 importlib.import_module(m)  # imported after every hook of this run was uninstalled: plain
         except BaseException as e:  # noqa: BLE001
             return {"error": f"after-uninstall import: {type(e).__name__}: {e}"}
+        jaxtyping.config.update("jaxtyping_disable", False)
         out = {}
         for name in MODS:
             mod = sys.modules.get(name)
@@ -179,6 +189,7 @@ def run_inprocess(d, run):
                          "version": mod.f(1), "const": mod.VERSION}
         return out
     finally:
+        jaxtyping.config.update("jaxtyping_disable", False)
         sys.dont_write_bytecode = old_flag
         sys.path.remove(d)
         for name in list(sys.modules):
@@ -223,7 +234,7 @@ def check_history(ctx, hist, mode):
         versions = {m: 1 for m in MODS}
         stamp = 1_600_000_000
         for m in MODS:
-            write_source(d, m, 1, stamp)
+            write_source(d, m, 1, stamp, bool(hist.get("same_size")))
         with open(os.path.join(d, "pbad.py"), "w") as f:
             f.write("def broken(:\n    pass\n")
         status_history = {m: [] for m in MODS}
@@ -233,9 +244,10 @@ def check_history(ctx, hist, mode):
             if run.get("edit"):
                 m = run["edit"]
                 versions[m] += 1
-                if not run.get("same_mtime"):
+                same_size = bool(hist.get("same_size")) and versions[m] <= 9
+                if not run.get("same_mtime") or same_size:
                     stamp += 100  # otherwise: same mtime, different size (same-second save, cp -p, rsync -t)
-                write_source(d, m, versions[m], stamp)
+                write_source(d, m, versions[m], stamp, same_size)
             damaged = ever_damaged[0]
             if run.get("damage"):
                 # an interrupted write: every cached file of that module is cut off after its 16-byte header + 8 bytes
@@ -288,11 +300,12 @@ run_st = st.fixed_dictionaries({
     "same_mtime": st.sampled_from([False, False, True]),
     "damage": st.sampled_from([None, None, None, None, "pa", "pb", "pkg.sub"]),
     "dont_write": st.sampled_from([False, False, False, True]),
+    "disabled": st.sampled_from([False, False, False, True]),
     "hooks": st.lists(hook_st, min_size=0, max_size=2),
     "order": st.lists(st.sampled_from(MODS + [BAD]), min_size=1, max_size=4, unique=True),
     "after": st.lists(st.sampled_from(MODS), max_size=2, unique=True),
 })
-hist_st = st.fixed_dictionaries({"runs": st.lists(run_st, min_size=2, max_size=5)})
+hist_st = st.fixed_dictionaries({"runs": st.lists(run_st, min_size=2, max_size=5), "same_size": st.sampled_from([False, True, False])})
 
 
 def run(ctx):
